@@ -149,10 +149,10 @@ theorem fsep_of_sorted (l : List FileEnt) (h : sortedDesc (l.map (·.score)) = t
 
 theorem fsep_promoted (a b x d : FileEnt) (r : List FileEnt)
     (h : sortedDesc ((a :: b :: d :: r).map (·.score)) = true) (h1 : x.ext ≠ a.ext) (h2 : x.ext ≠ b.ext)
-    (h3 : d.score * 9 ≤ x.score * 10) : filesSortedExceptPromotion (a :: b :: x :: d :: r) = true := by
+    (h3 : d.score * 9 ≤ x.score * 10) (h4 : x.score ≤ d.score) : filesSortedExceptPromotion (a :: b :: x :: d :: r) = true := by
   unfold filesSortedExceptPromotion
   simp only [h, Bool.true_and, Bool.or_eq_true, Bool.and_eq_true, bne_iff_ne, ne_eq, decide_eq_true_eq]
-  exact Or.inr ⟨⟨h1, h2⟩, h3⟩
+  exact Or.inr ⟨⟨⟨h1, h2⟩, h3⟩, h4⟩
 
 /-! ### DebugScore does not influence scores -/
 
@@ -676,5 +676,63 @@ theorem sorted_perm_eq (l l' : List Int) (h : l.Pairwise fun a b => b ≤ a) (h'
           · have := h.1 b hb; have := h'.1 a ha; omega
       subst hab
       rw [ih t' h.2 h'.2 ((List.perm_cons a).1 hp)]
+
+/-! ### prefixes (display truncation) and the collector -/
+
+theorem pairwise_of_sortedDesc (l : List Int) (h : sortedDesc l = true) : l.Pairwise fun a b => b ≤ a := by
+  induction l with
+  | nil => exact List.Pairwise.nil
+  | cons a t ih =>
+    cases t with
+    | nil => simp
+    | cons b r =>
+      simp only [sortedDesc, Bool.and_eq_true, decide_eq_true_eq] at h
+      have ht := ih h.2
+      rw [List.pairwise_cons]
+      refine ⟨?_, ht⟩
+      intro z hz
+      rcases List.mem_cons.1 hz with rfl | hz
+      · exact h.1
+      · have := (List.pairwise_cons.1 ht).1 z hz; omega
+
+theorem sortedDesc_take (l : List Int) (n : Nat) (h : sortedDesc l = true) : sortedDesc (l.take n) = true :=
+  sortedDesc_of_pairwise _ (List.Pairwise.sublist (List.take_sublist n l) (pairwise_of_sortedDesc l h))
+
+/-- truncating to the first `n` files keeps "non-increasing except for the promotion into third place" -/
+theorem fsep_take (l : List FileEnt) (n : Nat) (h : filesSortedExceptPromotion l = true) :
+    filesSortedExceptPromotion (l.take n) = true := by
+  unfold filesSortedExceptPromotion at h
+  rw [Bool.or_eq_true] at h
+  rcases h with h | h
+  · apply fsep_of_sorted
+    rw [List.map_take]
+    exact sortedDesc_take _ n h
+  · match l, h with
+    | a :: b :: c :: d :: r, h =>
+      simp only [Bool.and_eq_true, bne_iff_ne, ne_eq, decide_eq_true_eq] at h
+      obtain ⟨⟨⟨⟨hs, h1⟩, h2⟩, h3⟩, h4⟩ := h
+      have hp := pairwise_of_sortedDesc _ hs
+      simp only [List.map_cons, List.pairwise_cons, List.mem_cons, forall_eq_or_imp] at hp
+      match n with
+      | 0 => rfl
+      | 1 => rfl
+      | 2 =>
+        apply fsep_of_sorted
+        simp only [List.take_succ_cons, List.take_zero, List.map_cons, List.map_nil, sortedDesc, Bool.and_true, decide_eq_true_eq]
+        exact hp.1.1
+      | 3 =>
+        apply fsep_of_sorted
+        simp only [List.take_succ_cons, List.take_zero, List.map_cons, List.map_nil, sortedDesc, Bool.and_true, Bool.and_eq_true,
+          decide_eq_true_eq]
+        exact ⟨hp.1.1, by have := hp.2.1.1; omega⟩
+      | m + 4 =>
+        simp only [List.take_succ_cons]
+        apply fsep_promoted a b c d _ _ h1 h2 h3 h4
+        have := sortedDesc_take _ (m + 3) hs
+        simpa [List.map_take] using this
+    | [], h => simp at h
+    | [_], h => simp at h
+    | [_, _], h => simp at h
+    | [_, _, _], h => simp at h
 
 end ZoektModel.C29
